@@ -97,6 +97,7 @@ def run_check(pid: str, tier: str, seed: int, workers: int | None = None) -> int
     dim_cov = defaultdict(Counter)
     outcomes = Counter()
     nontrivial_keys = set()
+    nontrivial_extra = 0
     samples = []
     violations = {}  # sig-key -> (case, result)
     sig_counts = Counter()
@@ -128,6 +129,7 @@ def run_check(pid: str, tier: str, seed: int, workers: int | None = None) -> int
                 traces += r.get("traces", 0)
                 if st == "refused":
                     refusal_kinds[r.get("refusal", "?")] += 1
+                nontrivial_extra += int(r.get("nontrivial_n", 0))
                 if r.get("nontrivial"):
                     nontrivial_keys.add(hashlib.sha1(canon(case).encode()).hexdigest())
                 if len(samples) < 3 and st == "ok" and r.get("nontrivial"):
@@ -198,7 +200,7 @@ def run_check(pid: str, tier: str, seed: int, workers: int | None = None) -> int
         samples = [{"case": first, "summary": "first enumerated case"}]
     coverage = {
         "evaluations": evaluations,
-        "distinct_nontrivial": len(nontrivial_keys),
+        "distinct_nontrivial": len(nontrivial_keys) + nontrivial_extra,
         "rule": getattr(check, "RULE", ""),
         "samples": samples,
         "exhaustive": (not capped) and not harness_errors,
@@ -234,7 +236,7 @@ def run_check(pid: str, tier: str, seed: int, workers: int | None = None) -> int
     # ---------------------------------------------------------------- report
     print(
         f"[{pid}] tier={tier} seed={seed} cases={sum(status_count.values())} evaluations={evaluations} "
-        f"nontrivial={len(nontrivial_keys)} status={dict(status_count)} outcomes={len(outcomes)} "
+        f"nontrivial={len(nontrivial_keys) + nontrivial_extra} status={dict(status_count)} outcomes={len(outcomes)} "
         f"wall={time.time() - t0:.1f}s capped={capped}"
     )
     if states:
